@@ -27,6 +27,15 @@ def strategy(tier: str):
     return msgcase.message_case(size_directed_share=3)
 
 
+
+def FLAKY_IS_VIOLATION(case: Any) -> bool:
+    """This check is a pure function of the case (no clock, no threads, no randomness outside the case): when a violation is
+    observed and the very same case passes on Hypothesis' re-run, the library has carried state from an earlier case into
+    this one (a process-wide memo, a shared container) - on a correct tree the objects of one case cannot affect the next.
+    What was seen stands."""
+    return True
+
+
 def known_signature(case: Any, v: Violation):
     return None
 
